@@ -1,0 +1,13 @@
+//go:build verif
+
+package skiplist
+
+// Scheduling hook for deterministic replays of interleavings (compiled only with -tags verif).
+// VerifYieldFn, when set by a test, is called at named points of the access barrier protocol.
+var VerifYieldFn func(point string)
+
+func verifYield(point string) {
+	if f := VerifYieldFn; f != nil {
+		f(point)
+	}
+}
